@@ -1,8 +1,8 @@
 (* C04/Props.v — the property theorems, nothing else.
-   Model: C04/Model.v.  Proofs: Glob.v, Sound.v, Assoc.v, Prune.v, Shrink.v, Coherent.v, Cmd.v, Secure.v. *)
+   Model: C04/Model.v.  Proofs: Glob.v, Sound.v, Assoc.v, Prune.v, Shrink.v, Coherent.v, Cmd.v, Secure.v, Nick.v. *)
 From Coq Require Import List NArith ZArith Bool.
 Import ListNotations.
-Require Import Base.Wire Base.PyStr C04.Model C04.Glob C04.Sound C04.Prune C04.Shrink C04.Coherent C04.Cmd C04.Secure.
+Require Import Base.Wire Base.PyStr C04.Model C04.Glob C04.Sound C04.Prune C04.Shrink C04.Coherent C04.Cmd C04.Secure C04.Nick.
 Require C03.Model.
 
 (* The regex the code builds from a hostmask pattern decides exactly the
@@ -172,3 +172,24 @@ Theorem C04_secure_needs_mask :
     exists u, In (id, u) (s_users s) /\ recog t now u h = true /\ (u_secure u = true -> mask_match u h = true).
 Proof. exact secure_needs_mask_state. Qed.
 Print Assumptions C04_secure_needs_mask.
+
+(* ---- supybot.followIdentificationThroughNickChanges (Irc.doNick, src/irclib.py) ---- *)
+
+(* "identified ... from that exact hostmask": when an identified client P changes
+   nick and the bot follows (Model.nickchange; the way the login is moved is the
+   regenerated table entry gen.T04.NICK_FOLLOW_REPLACES), the account's logins
+   afterwards are the ones it had with P replaced by the new hostmask: as many
+   as before, and none from the old hostmask (unless only the case changed), for
+   every state, clock and timeout.  Whoever holds the old nick afterwards did
+   not identify. *)
+Theorem C04_nick_follow_moves_login :
+  forall t now s P newP s' id u,
+    nickchange t now true s P newP = (s', Ok tt) ->
+    snd (getUserId t now s P) = Ok id ->
+    nget id (s_users (fst (getUserId t now s P))) = Some u ->
+    exists u', nget id (s_users s') = Some u' /\
+               u_auth u' = map (moved P newP) (u_auth u) /\
+               length (u_auth u') = length (u_auth u) /\
+               (ieq P newP = false -> forall e, In e (u_auth u') -> ieq P (snd e) = false).
+Proof. exact nick_follow_moves_login. Qed.
+Print Assumptions C04_nick_follow_moves_login.
